@@ -935,3 +935,61 @@ func appendUnique(xs []string, s string) []string {
 	}
 	return append(xs, s)
 }
+
+// ReservedNamesRejected (bounded, one plugin run per reserved identifier): a message named like a
+// Gorums reserved type must be rejected with a diagnostic. The identifiers are read from the
+// reservedIdents variable of the working tree's bundled static code.
+func ReservedNamesRejected(s *Session, id string) *FuncResult {
+	res := &FuncResult{Name: "reserved-names (bounded)", HasContract: true}
+	if curGen == nil || curGen.gentool == "" {
+		return res
+	}
+	src, err := os.ReadFile(filepath.Join(RepoDir, "cmd/protoc-gen-gorums/gengorums/template_static.go"))
+	if err != nil {
+		structOblig(res, "gen/reserved[reservedIdents found]", false, err.Error(), id)
+		return res
+	}
+	fset := token.NewFileSet()
+	f, err := parser.ParseFile(fset, "template_static.go", src, 0)
+	var names []string
+	if err == nil {
+		ast.Inspect(f, func(n ast.Node) bool {
+			vs, ok := n.(*ast.ValueSpec)
+			if !ok || len(vs.Names) != 1 || vs.Names[0].Name != "reservedIdents" || len(vs.Values) != 1 {
+				return true
+			}
+			if cl, ok := vs.Values[0].(*ast.CompositeLit); ok {
+				for _, e := range cl.Elts {
+					if bl, ok := e.(*ast.BasicLit); ok && bl.Kind == token.STRING {
+						names = append(names, strings.Trim(bl.Value, "\"`"))
+					}
+				}
+			}
+			return false
+		})
+	}
+	structOblig(res, "gen/reserved[reservedIdents found]", len(names) > 0, fmt.Sprintf("reserved identifiers: %v", names), id)
+	for _, n := range names {
+		o, _ := runCmd(curGen.Tmp, curGen.gentool, "mutate", curGen.plugin, "paths=source_relative", "zorums.proto", "-", "add_message="+n)
+		var r struct {
+			ExitError bool   `json:"exit_error"`
+			Stderr    string `json:"stderr"`
+			RespErr   string `json:"response_error"`
+			Files     int    `json:"files"`
+		}
+		json.Unmarshal([]byte(o), &r)
+		diag := r.ExitError || r.RespErr != ""
+		structOblig(res, fmt.Sprintf("gen/rejects[message named %s]", n), diag,
+			fmt.Sprintf("plugin on zorums.proto with an extra message %s: exit error=%v, response error=%q, stderr=%q, files=%d", n, r.ExitError, r.RespErr, truncate(r.Stderr, 200), r.Files), id)
+	}
+	// and an unreserved name is accepted
+	o, _ := runCmd(curGen.Tmp, curGen.gentool, "mutate", curGen.plugin, "paths=source_relative", "zorums.proto", "-", "add_message=QuorumSpecification")
+	var r struct {
+		ExitError bool   `json:"exit_error"`
+		RespErr   string `json:"response_error"`
+		Files     int    `json:"files"`
+	}
+	json.Unmarshal([]byte(o), &r)
+	structOblig(res, "gen/accepts[message named QuorumSpecification]", !r.ExitError && r.RespErr == "" && r.Files > 0, truncate(o, 300), id)
+	return res
+}
